@@ -1080,7 +1080,8 @@ class Parser:
             # After skip_whitespace() the NEWLINE is consumed and current() is FENCE_OPEN.
             # The normal INDENT-gated path would leave children empty, silently dropping
             # the literal zone (I1 violation). Parse it here into a bare-key Assignment.
-            if self.current().type == TokenType.FENCE_OPEN:
+            # An unindented fence right after the colon is still taken as the block's only child.
+            if self.current().type == TokenType.FENCE_OPEN and self.current().column - 1 <= base_indent:
                 lzv = self.parse_literal_zone()
                 children.append(
                     Assignment(
@@ -1093,10 +1094,16 @@ class Parser:
 
             # Expect indentation for children. Only a line indented deeper than the block's own
             # line starts its body; a line at the same (or a shallower) indent is a sibling, so an
-            # empty nested block does not adopt the fields that follow it.
-            elif self.current().type == TokenType.INDENT and self.current().value > base_indent:
-                child_indent = self.current().value
-                self.advance()
+            # empty nested block does not adopt the fields that follow it. A fence line has no
+            # INDENT token: its depth is the column of its FENCE_OPEN token.
+            elif (self.current().type == TokenType.INDENT and self.current().value > base_indent) or (
+                self.current().type == TokenType.FENCE_OPEN
+            ):
+                if self.current().type == TokenType.INDENT:
+                    child_indent = self.current().value
+                    self.advance()
+                else:
+                    child_indent = self.current().column - 1
 
                 # GH#81: Track current line's indentation to detect implicit dedent
                 # When NEWLINE is consumed without subsequent INDENT, the next token
@@ -1133,6 +1140,10 @@ class Parser:
                         # Next INDENT token will update it, or absence means column 0
                         current_line_indent = 0
                         continue
+
+                    # A fence line is not preceded by an INDENT token; its column gives the indent
+                    if self.current().type == TokenType.FENCE_OPEN:
+                        current_line_indent = self.current().column - 1
 
                     # GH#81: Check for implicit dedent before parsing child
                     # If current line has less indentation than block children expect,
